@@ -371,7 +371,7 @@ def prove(run, extra_targets=()):
 AXIOMS_ALLOWED = []
 
 
-def correspond(run, stream, hargs, timeout=1800):
+def correspond(run, stream, hargs, timeout=1800, reference_theorem=None):
     """Step 3: harness writes <stream>_cases.v (observed outcomes); Coq evaluates the model on the
     same inputs and prints the mismatching case indices."""
     os.makedirs(run.outdir, exist_ok=True)
@@ -411,6 +411,12 @@ def correspond(run, stream, hargs, timeout=1800):
         c = cases.get(cf, [])
         line = c[i] if i < len(c) else '?'
         run.broke('correspondence %s: model and implementation differ' % stream, 'case %s#%d: %s' % (cf, i, line))
+        if reference_theorem:
+            # the model side of this stream is the proved reference value: a disagreement is a concrete input on
+            # which the implementation's output is not the reference
+            run.fail(source='correspondence:' + stream, op=stream + '-reference', what='implementation output differs from the proved reference',
+                     input=line, observed='see the case line (observed outcome recorded by the harness)', expected='the value of the Coq reference model on the same input',
+                     case=line, theorem=reference_theorem)
         run.notes.setdefault('mismatches', []).append({'stream': stream, 'file': cf, 'index': i, 'case': line})
     run.notes.setdefault('correspondence', {})[stream] = {'cases': meta.get('evaluations', 0), 'mismatches': len(mism)}
     return meta
